@@ -64,16 +64,16 @@ Lemma true_diag_0 n (M : fm) : true_diag n n M 0 = map (fun i => M i i) (seq 0 n
 Proof. unfold true_diag. cbn [Z.leb Z.compare Z.to_nat]. rewrite Nat.sub_0_r, Nat.min_id. apply map_ext. intros i. rewrite Nat.add_0_r. reflexivity. Qed.
 
 (* ---------- generic rule *)
-Lemma generic_agrees B al (e : op) k d : (1 <= B)%nat -> wf e = true -> Nat.eqb (fst (shape e)) (snd (shape e)) = true ->
-  (0 <? fst (shape e))%nat = true -> generic_diag B al e k = inr d -> d = true_diag (fst (shape e)) (snd (shape e)) (den e) k.
+Lemma generic_agrees df B al (e : op) k d : (1 <= B)%nat -> wf e = true -> Nat.eqb (fst (shape e)) (snd (shape e)) = true ->
+  (0 <? fst (shape e))%nat = true -> generic_diag df B al e k = inr d -> d = true_diag (fst (shape e)) (snd (shape e)) (den e) k.
 Proof. intros HB Hwf Hsq Hpos. apply Nat.eqb_eq in Hsq. apply Nat.ltb_lt in Hpos. unfold generic_diag.
   assert (Hrun : (if Nat.eqb (fst (shape e)) (snd (shape e)) then
-            match exact_diag B (fst (shape e)) (fun _ X => matmat e X) k with Some d0 => inr d0 | None => inl DValue end
+            match exact_diag (d_ragged_fixed df) B (fst (shape e)) (fun _ X => matmat e X) k with Some d0 => inr d0 | None => inl DValue end
           else inl DUnmodelled) = inr d -> d = true_diag (fst (shape e)) (snd (shape e)) (den e) k).
-  { rewrite <- Hsq, Nat.eqb_refl. destruct (exact_diag B (fst (shape e)) (fun _ X => matmat e X) k) as [d0|] eqn:E; [|discriminate].
+  { rewrite <- Hsq, Nat.eqb_refl. destruct (exact_diag (d_ragged_fixed df) B (fst (shape e)) (fun _ X => matmat e X) k) as [d0|] eqn:E; [|discriminate].
     intros H; injection H as <-.
     assert (Hs : shape e = (fst (shape e), fst (shape e))) by (destruct (shape e); cbn [fst snd] in *; congruence).
-    destruct (exact_diag_correct e B (fst (shape e)) k d0 Hwf Hs HB ltac:(lia) E) as [Hd _]. exact Hd. }
+    destruct (exact_diag_correct (d_ragged_fixed df) e B (fst (shape e)) k d0 Hwf Hs HB ltac:(lia) E) as [Hd _]. exact Hd. }
   destruct al as [|tp tq]; [exact Hrun|]. destruct (auto_exact tp tq (fst (shape e)) (snd (shape e))); [exact Hrun|discriminate]. Qed.
 
 (* ---------- Sum *)
@@ -89,7 +89,7 @@ Definition sum_go (D : op -> derr + list R) : list op -> option (list R) -> derr
                           end
                end
   end.
-Lemma diag_rule_Sum B al ms k : diag_rule B al (Sum ms) k = sum_go (fun m => diag_rule B al m k) ms None.
+Lemma diag_rule_Sum df B al ms k : diag_rule df B al (Sum ms) k = sum_go (fun m => diag_rule df B al m k) ms None.
 Proof. reflexivity. Qed.
 Lemma sum_go_spec (D : op -> derr + list R) mm nn k l : 
   (forall m, In m l -> shape m = (mm, nn) /\ forall d, D m = inr d -> d = true_diag mm nn (den m) k) ->
@@ -132,8 +132,8 @@ Definition bd_go (D : op -> derr + list R) : list (op * nat) -> derr + list R :=
                      | inr d => match go l' with inl er => inl er | inr rest => inr (concat (rep mu d) ++ rest) end
                      end
   end.
-Lemma diag_rule_BDiag B al ms k : diag_rule B al (BDiag ms) k =
-  if (k =? 0)%Z then bd_go (fun m => diag_rule B al m k) ms else inl DAssert.
+Lemma diag_rule_BDiag df B al ms k : diag_rule df B al (BDiag ms) k =
+  if (k =? 0)%Z then (if d_bd_refuse df && negb (forallb (fun mc => sqb (fst mc)) ms) then inl DAssert else bd_go (fun m => diag_rule df B al m k) ms) else inl DAssert.
 Proof. reflexivity. Qed.
 Lemma bd_go_spec (D : op -> derr + list R) l d :
   (forall mc, In mc l -> fst (shape (fst mc)) = snd (shape (fst mc)) /\
@@ -167,8 +167,8 @@ Definition kr_go (D : op -> derr + list R) : list op -> derr + list (list R) :=
                | inr d => match go l' with inl er => inl er | inr ds => inr (d :: ds) end
                end
   end.
-Lemma diag_rule_Kron B al ms k : diag_rule B al (Kron ms) k =
-  if (k =? 0)%Z then match kr_go (fun m => diag_rule B al m k) ms with inl er => inl er | inr ds => inr (outer rmul r1 ds) end
+Lemma diag_rule_Kron df B al ms k : diag_rule df B al (Kron ms) k =
+  if (k =? 0)%Z then if d_kron_refuse df && negb (forallb sqb ms) then inl DAssert else match kr_go (fun m => diag_rule df B al m k) ms with inl er => inl er | inr ds => inr (outer rmul r1 ds) end
   else inl DAssert.
 Proof. reflexivity. Qed.
 Lemma kr_go_spec (D : op -> derr + list R) l ds :
@@ -205,8 +205,8 @@ Proof. induction fs as [|g fs IH]; intros Hfs.
     split; [cbn [ksum2 fr]; apply Nat.mul_pos_pos; assumption|].
     split; [cbn [ksum2 kron2 fr]; rewrite I3; reflexivity|]. split; [cbn [ksum2 kron2 fc]; rewrite I4; reflexivity|].
     rewrite dg_ksum2 by assumption. rewrite I5. reflexivity. Qed.
-Lemma diag_rule_KronSum B al ms k : diag_rule B al (KronSum ms) k =
-  if (k =? 0)%Z then match kr_go (fun m => diag_rule B al m k) ms with inl er => inl er | inr ds => inr (outer radd r0 ds) end
+Lemma diag_rule_KronSum df B al ms k : diag_rule df B al (KronSum ms) k =
+  if (k =? 0)%Z then match kr_go (fun m => diag_rule df B al m k) ms with inl er => inl er | inr ds => inr (outer radd r0 ds) end
   else inl DAssert.
 Proof. reflexivity. Qed.
 Lemma kr_go_dg (D : op -> derr + list R) l ds :
@@ -233,16 +233,16 @@ Lemma in_rep {A} mu (x y : A) : In x (rep mu y) -> x = y.
 Proof. induction mu; cbn [rep In]; [tauto|]. intros [H|H]; auto. Qed.
 
 (* ===== the structural rules return the diagonal of the represented matrix (or refuse) ===== *)
-Theorem diag_rule_agrees B al : (1 <= B)%nat -> forall (e : op) k d, dwf e = true -> diag_rule B al e k = inr d ->
+Theorem diag_rule_agrees df B al : (1 <= B)%nat -> forall (e : op) k d, dwf e = true -> diag_rule df B al e k = inr d ->
   d = true_diag (fst (shape e)) (snd (shape e)) (den e) k.
 Proof.
   intros HB.
   assert (G : forall e : op, dwf e = (wf e && Nat.eqb (fst (shape e)) (snd (shape e)) && (0 <? fst (shape e))%nat) ->
-              (forall k, diag_rule B al e k = generic_diag B al e k) ->
-              forall k d, dwf e = true -> diag_rule B al e k = inr d -> d = true_diag (fst (shape e)) (snd (shape e)) (den e) k).
+              (forall k, diag_rule df B al e k = generic_diag df B al e k) ->
+              forall k d, dwf e = true -> diag_rule df B al e k = inr d -> d = true_diag (fst (shape e)) (snd (shape e)) (den e) k).
   { intros e E1 E2 k d Hd Hr. rewrite E1 in Hd. apply andb_prop in Hd as [Hd H3]. apply andb_prop in Hd as [H1 H2].
     rewrite E2 in Hr. eapply generic_agrees; eauto. }
-  apply (op_ind2 (fun e => forall k d, dwf e = true -> diag_rule B al e k = inr d -> d = true_diag (fst (shape e)) (snd (shape e)) (den e) k)).
+  apply (op_ind2 (fun e => forall k d, dwf e = true -> diag_rule df B al e k = inr d -> d = true_diag (fst (shape e)) (snd (shape e)) (den e) k)).
   - (* Dense *) intros a k d _ H. cbn [diag_rule] in H. injection H as <-. reflexivity.
   - (* Diag *) intros n d0 k d _ H. cbn [diag_rule shape den fst snd] in *. destruct (k =? 0)%Z eqn:E.
     + apply Z.eqb_eq in E. subst k. injection H as <-. rewrite true_diag_0. apply map_ext. intros i. rewrite delta_eq by reflexivity. ring.
@@ -259,9 +259,9 @@ Proof.
       specialize (Hsh (shape m') (in_map shape _ _ Hm')). unfold shp_eqb in Hsh. apply andb_prop in Hsh as [A B']. apply Nat.eqb_eq in A, B'.
       destruct (shape m'); cbn [fst snd] in *; congruence. }
     rewrite Forall_forall in HF.
-    change (sum_go (fun m0 => diag_rule B al m0 k) (m :: l) None)
-      with (match diag_rule B al m k with inl er => inl er | inr d1 => sum_go (fun m0 => diag_rule B al m0 k) l (Some d1) end) in H.
-    destruct (diag_rule B al m k) as [er|d1] eqn:E1; [discriminate|].
+    change (sum_go (fun m0 => diag_rule df B al m0 k) (m :: l) None)
+      with (match diag_rule df B al m k with inl er => inl er | inr d1 => sum_go (fun m0 => diag_rule df B al m0 k) l (Some d1) end) in H.
+    destruct (diag_rule df B al m k) as [er|d1] eqn:E1; [discriminate|].
     destruct (Hall m (or_introl eq_refl)) as [Sm Dm]. pose proof (HF m (or_introl eq_refl) k d1 Dm E1) as Hd1. rewrite Sm in Hd1. cbn [fst snd] in Hd1. subst d1.
     apply (sum_go_spec _ (fst s0) (snd s0) k l) in H.
     + cbn [shape]. fold s0. rewrite H. apply true_diag_ext. intros i j _ _. rewrite fold_madd_assoc. reflexivity.
@@ -269,14 +269,16 @@ Proof.
       pose proof (HF m' (or_intror Hm') k d' Dm' Hd') as Hx. rewrite Sm' in Hx. exact Hx.
   - (* Prod *) intros ms _. apply G; reflexivity.
   - (* Kron *) intros ms HF k d Hd H. cbn [dwf] in Hd. rewrite diag_rule_Kron in H. destruct (k =? 0)%Z eqn:E; [|discriminate]. apply Z.eqb_eq in E. subst k.
-    destruct (kr_go (fun m => diag_rule B al m 0) ms) as [er|ds] eqn:Eg; [discriminate|]. injection H as <-.
+    destruct (d_kron_refuse df && negb (forallb sqb ms)); [discriminate|].
+    destruct (kr_go (fun m => diag_rule df B al m 0) ms) as [er|ds] eqn:Eg; [discriminate|]. injection H as <-.
     rewrite Forall_forall in HF. rewrite forallb_forall in Hd.
-    destruct (kr_go_spec (fun m => diag_rule B al m 0) ms ds) as (K1 & K2 & K3); [|exact Eg|].
+    destruct (kr_go_spec (fun m => diag_rule df B al m 0) ms ds) as (K1 & K2 & K3); [|exact Eg|].
     { intros m Hm. specialize (Hd m Hm). apply andb_prop in Hd as [Hd H3]. apply andb_prop in Hd as [H1 H2].
       apply Nat.eqb_eq in H2. apply Nat.ltb_lt in H3. split; [exact H2|]. split; [exact H3|]. intros d Hdm. apply (HF m Hm 0%Z d H1 Hdm). }
     cbv zeta in K1, K2, K3. cbn [shape den]. rewrite (kshape_kronR ms). cbn [fst snd]. fold (facof (R:=R)).
     rewrite <- K1, true_diag_0. exact K3.
   - (* BDiag *) intros ms HF k d Hd H. cbn [dwf] in Hd. rewrite diag_rule_BDiag in H. destruct (k =? 0)%Z eqn:E; [|discriminate]. apply Z.eqb_eq in E. subst k.
+    destruct (d_bd_refuse df && negb (forallb (fun mc => sqb (fst mc)) ms)); [discriminate|].
     rewrite Forall_forall in HF. rewrite forallb_forall in Hd.
     apply bd_go_spec in H.
     + assert (Hsq : forall b, In b (blocks ms) -> fst (fst b) = snd (fst b)).
@@ -295,13 +297,13 @@ Proof.
   - (* Sparse *) intros m n ent. apply G; reflexivity.
   - (* KronSum *) intros ms HF k d Hd H. cbn [dwf] in Hd. apply andb_prop in Hd as [Hne Hd].
     rewrite diag_rule_KronSum in H. destruct (k =? 0)%Z eqn:E; [|discriminate]. apply Z.eqb_eq in E. subst k.
-    destruct (kr_go (fun m => diag_rule B al m 0) ms) as [er|ds] eqn:Eg; [discriminate|]. injection H as <-.
+    destruct (kr_go (fun m => diag_rule df B al m 0) ms) as [er|ds] eqn:Eg; [discriminate|]. injection H as <-.
     rewrite Forall_forall in HF. rewrite forallb_forall in Hd.
     assert (Hall : forall m, In m ms -> dwf m = true /\ fst (shape m) = snd (shape m) /\ (0 < fst (shape m))%nat).
     { intros m Hm. specialize (Hd m Hm). apply andb_prop in Hd as [Hd H3]. apply andb_prop in Hd as [H1 H2].
       apply Nat.eqb_eq in H2. apply Nat.ltb_lt in H3. auto. }
     assert (Hds : ds = map dg (map facof ms)).
-    { apply (kr_go_dg (fun m => diag_rule B al m 0)); [|exact Eg]. intros m Hm. destruct (Hall m Hm) as (H1 & H2 & H3).
+    { apply (kr_go_dg (fun m => diag_rule df B al m 0)); [|exact Eg]. intros m Hm. destruct (Hall m Hm) as (H1 & H2 & H3).
       split; [exact H2|]. intros d Hdm. apply (HF m Hm 0%Z d H1 Hdm). }
     rewrite Hds. clear Hds Eg.
     cbn [shape den]. change (map (fun m0 : op => mkfac (fst (shape m0)) (snd (shape m0)) (den m0)) ms) with (map facof ms).
@@ -318,11 +320,11 @@ Fixpoint tdwf (e : op) : bool :=
   | Kron ms => forallb (fun m => tdwf m && Nat.eqb (fst (shape m)) (snd (shape m)) && (0 <? fst (shape m))%nat) ms
   | _ => dwf e && Nat.eqb (fst (shape e)) (snd (shape e))
   end.
-Lemma generic_trace_correct B al (e : op) t : (1 <= B)%nat -> dwf e = true -> generic_trace B al e = inr t ->
+Lemma generic_trace_correct df B al (e : op) t : (1 <= B)%nat -> dwf e = true -> generic_trace df B al e = inr t ->
   t = true_trace (fst (shape e)) (den e).
 Proof. intros HB Hd. unfold generic_trace. destruct (Nat.eqb_spec (fst (shape e)) (snd (shape e))) as [Hsq|]; [|discriminate].
-  destruct (diag_rule B al e 0) as [er|d] eqn:E; [discriminate|]. intros H; injection H as <-.
-  rewrite (diag_rule_agrees B al HB e 0%Z d Hd E), <- Hsq, true_diag_0, lsum_map. reflexivity. Qed.
+  destruct (diag_rule df B al e 0) as [er|d] eqn:E; [discriminate|]. intros H; injection H as <-.
+  rewrite (diag_rule_agrees df B al HB e 0%Z d Hd E), <- Hsq, true_diag_0, lsum_map. reflexivity. Qed.
 Definition tr_go (D : op -> derr + R) : list op -> derr + R :=
   fix go (l : list op) {struct l} : derr + R :=
   match l with
@@ -332,7 +334,7 @@ Definition tr_go (D : op -> derr + R) : list op -> derr + R :=
                | inr t => match go l' with inl er => inl er | inr p => inr (t * p) end
                end
   end.
-Lemma trace_rule_Kron B al ms : trace_rule B al (Kron ms) = tr_go (fun m => trace_rule B al m) ms.
+Lemma trace_rule_Kron df B al ms : trace_rule df B al (Kron ms) = tr_go (fun m => trace_rule df B al m) ms.
 Proof. reflexivity. Qed.
 Lemma trace_kron2 (A K' : fac) : fr A = fc A -> fr K' = fc K' -> (0 < fr K')%nat ->
   true_trace (fr (kron2 A K')) (fmx (kron2 A K')) = true_trace (fr A) (fmx A) * true_trace (fr K') (fmx K').
@@ -354,18 +356,18 @@ Proof. revert t. induction l as [|m l IH]; intros t Hl.
     split; [cbn [kron2 fr fc facof]; rewrite Hsq, I1; reflexivity|]. split; [cbn [kron2 fr facof]; apply Nat.mul_pos_pos; assumption|].
     rewrite trace_kron2; [|cbn [facof fr fc]; exact Hsq|exact I1|exact I2]. rewrite I3, (Hm tm eq_refl). reflexivity. Qed.
 
-Theorem trace_correct B al : (1 <= B)%nat -> forall (e : op) t, tdwf e = true -> trace_rule B al e = inr t ->
+Theorem trace_correct df B al : (1 <= B)%nat -> forall (e : op) t, tdwf e = true -> trace_rule df B al e = inr t ->
   t = true_trace (fst (shape e)) (den e).
 Proof.
   intros HB.
-  assert (G : forall e : op, tdwf e = (dwf e && Nat.eqb (fst (shape e)) (snd (shape e))) -> trace_rule B al e = generic_trace B al e ->
-              forall t, tdwf e = true -> trace_rule B al e = inr t -> t = true_trace (fst (shape e)) (den e)).
+  assert (G : forall e : op, tdwf e = (dwf e && Nat.eqb (fst (shape e)) (snd (shape e))) -> trace_rule df B al e = generic_trace df B al e ->
+              forall t, tdwf e = true -> trace_rule df B al e = inr t -> t = true_trace (fst (shape e)) (den e)).
   { intros e E1 E2 t Ht Hr. rewrite E1 in Ht. apply andb_prop in Ht as [H1 _]. rewrite E2 in Hr. eapply generic_trace_correct; eauto. }
-  apply (op_ind2 (fun e => forall t, tdwf e = true -> trace_rule B al e = inr t -> t = true_trace (fst (shape e)) (den e)));
+  apply (op_ind2 (fun e => forall t, tdwf e = true -> trace_rule df B al e = inr t -> t = true_trace (fst (shape e)) (den e)));
     try (intros; eapply G; eauto; reflexivity).
   (* Kron *) intros ms HF t Ht H. cbn [tdwf] in Ht. rewrite trace_rule_Kron in H.
   rewrite Forall_forall in HF. rewrite forallb_forall in Ht.
-  destruct (tr_go_spec (fun m => trace_rule B al m) ms t) as (K1 & K2 & K3); [|exact H|].
+  destruct (tr_go_spec (fun m => trace_rule df B al m) ms t) as (K1 & K2 & K3); [|exact H|].
   { intros m Hm. specialize (Ht m Hm). apply andb_prop in Ht as [Ht H3]. apply andb_prop in Ht as [H1 H2].
     apply Nat.eqb_eq in H2. apply Nat.ltb_lt in H3. split; [exact H2|]. split; [exact H3|]. intros t' Ht'. apply (HF m Hm t' H1 Ht'). }
   cbv zeta in K1, K2, K3. cbn [shape den]. rewrite (kshape_kronR ms). cbn [fst]. exact K3.
